@@ -23,6 +23,7 @@ type renderer struct {
 	p      *Prog
 	active map[ssa.Value]bool
 	memo   map[ssa.Value]string
+	env    map[*ssa.Phi]ssa.Value // per-path phi resolution (nil: none)
 }
 
 // Render renders the origin of v.
@@ -47,7 +48,7 @@ func (r *renderer) val(v ssa.Value, d int) string {
 	r.active[v] = true
 	s := r.val1(v, d)
 	delete(r.active, v)
-	if !strings.Contains(s, "↺") {
+	if !strings.Contains(s, "↺") && r.env == nil {
 		r.memo[v] = s
 	}
 	return s
@@ -134,6 +135,11 @@ func (r *renderer) val1(v ssa.Value, d int) string {
 		}
 		return r.val(v.Tuple, d+1) + "#" + fmt.Sprint(v.Index)
 	case *ssa.Phi:
+		if r.env != nil {
+			if e, ok := r.env[v]; ok {
+				return r.val(e, d+1)
+			}
+		}
 		set := map[string]bool{}
 		for _, e := range v.Edges {
 			set[r.val(e, d+1)] = true
@@ -781,6 +787,31 @@ func (p *Prog) StructFields(v ssa.Value) map[string]string {
 	for i := 0; i < st.NumFields(); i++ {
 		fl := loc{l.base, append(append([]int{}, l.path...), i)}
 		vals := r.reaching(u, fl, 0)
+		s := strings.Join(vals, "|")
+		if len(vals) > 1 {
+			s = "{" + s + "}"
+		}
+		out[st.Field(i).Name()] = s
+	}
+	return out
+}
+
+// FieldsAt is StructFields for a pointer to a local struct cell (e.g. the
+// argument &T{...} of a call): field origins as they reach instruction at.
+func (p *Prog) FieldsAt(ptr ssa.Value, at ssa.Instruction) map[string]string {
+	l, ok := addrLoc(ptr)
+	if !ok {
+		return nil
+	}
+	st, ok := deref(ptr.Type()).Underlying().(*types.Struct)
+	if !ok {
+		return nil
+	}
+	r := &renderer{p: p, active: map[ssa.Value]bool{}, memo: map[ssa.Value]string{}}
+	out := map[string]string{}
+	for i := 0; i < st.NumFields(); i++ {
+		fl := loc{l.base, append(append([]int{}, l.path...), i)}
+		vals := r.reaching(at, fl, 0)
 		s := strings.Join(vals, "|")
 		if len(vals) > 1 {
 			s = "{" + s + "}"
